@@ -67,5 +67,16 @@ Lemma ob_run_prog :
    b "shutdown-else-close"; b "close-idle-upstream"; b "return-ctx-err"].
 Proof. vm_compute. reflexivity. Qed.
 
+(* HTTP/2 inside an intercepted session is not enabled by any production code (only the h2 test
+   fixture calls SetH2Config): the one handler path missing from the LTS is unreachable.  If this
+   breaks, read Shutdown.v's header: h2.Config.Proxy ends both relays as soon as closing is set. *)
+Lemma ob_h2_in_mitm_unreachable : h2_in_mitm_enabled_by = [].
+Proof. vm_compute. reflexivity. Qed.
+
+(* several listeners are several accept loops on ONE proxy: one registry, one counter, one closing
+   signal; the LTS has one accept loop, so "at most one late accept" reads "at most one per listener" *)
+Lemma ob_run_serves_every_listener_on_one_proxy : run_serves_every_listener_on_one_proxy = true.
+Proof. vm_compute. reflexivity. Qed.
+
 Lemma ob_default_shutdown_timeout : (0 < default_shutdown_timeout_ms)%Z.
 Proof. vm_compute. reflexivity. Qed.
